@@ -105,7 +105,7 @@ Proof.
       { rewrite Hr1 in *. unfold jump_or_die in *. destruct (bufs s1); exact Hrun. }
       inversion Hrun'; inversion Href; subst. repeat split; auto.
   - (* PThrow: the arguments are shown (program f), then the object is stored and raised *)
-    cbn [mrun ref_run] in Hrun, Href.
+    cbn [mrun ref_run] in Hrun, Href. unfold throw_pre, throw_post in Hrun.
     destruct (run f st) as [[t1 r1] s1] eqn:E1.
     destruct (ref_run (depth st) (msg st) f) as [[t01 r01] c1] eqn:R1.
     destruct (IHf st Hbound _ _ _ E1 _ _ _ R1) as (-> & Hb1 & Hm1 & Hres1).
